@@ -39,8 +39,7 @@ let () = run_lines (fun toks ->
   | ["ratrecon"; f; m; k; fr] -> pr (Model.ratrecon (zs f) (zs m) (zs k) (b fr))
   | ["rr7"; f; m; k; fr; rc] -> pr (Model.rR7 (zs f) (zs m) (zs k) (b fr) (b rc))
   | ["rr4"; f; m] -> pr (Model.rR4 (zs f) (zs m))
-  | ["rr6"; f; m; ab; bb] -> pr (Model.rR6 (zs f) (zs m) (zs ab) (zs bb))      (* body with bound = x/bb *)
-  | ["rr6f"; f; m; ab; bb] -> pr (Model.rR6f (zs f) (zs m) (zs ab) (zs bb))    (* repaired body (frag/C11.fix-2.diff) *)
+  | ["rr6f"; f; m; ab; bb] -> pr (Model.rR6f (zs f) (zs m) (zs ab) (zs bb))    (* body of /repo 224c4ab *)
   | ["ctor"; f; m; k; fl; rc] -> pr (Model.ratCtor (zs f) (zs m) (zs k) (b fl) (b rc))
   | ["qfk"; f; m; k; fl; rc] -> pr (Model.qF_ratrecon_k (zs f) (zs m) (zs k) (b fl) (b rc))
   | ["qf"; f; m; fl; rc] -> pr (Model.qF_ratrecon (zs f) (zs m) (b fl) (b rc))
